@@ -65,6 +65,11 @@ pub fn single(n: usize, buf: usize, seed: u64) -> Verdict {
 }
 
 pub fn multi(n: usize, m: usize, k: usize, buf: usize, seed: u64) -> Verdict {
+    multi_z(n, m, k, buf, seed, None)
+}
+
+/// `zero_at`: that polynomial of the batch is the zero polynomial (all its claimed evaluations are 0)
+pub fn multi_z(n: usize, m: usize, k: usize, buf: usize, seed: u64, zero_at: Option<usize>) -> Verdict {
     let delta = sym_nonzero("delta");
     let eta = sym_nonzero("eta");
     let (ck, tau) = keys(n + k, m, seed);
@@ -84,7 +89,7 @@ pub fn multi(n: usize, m: usize, k: usize, buf: usize, seed: u64) -> Verdict {
     }
     // polynomial i has n + i coefficients (the batch mixes lengths, the first one is the shortest);
     // with k >= 3 the first one even has fewer coefficients than there are points
-    let polys: Vec<Vec<SF>> = (0..k).map(|i| { let len = if k >= 3 && i == 0 { m.saturating_sub(1).max(1) } else { n + i }; (0..len).map(|j| sym(&format!("f{}_{}", i, j))).collect() }).collect();
+    let polys: Vec<Vec<SF>> = (0..k).map(|i| { let len = if k >= 3 && i == 0 { m.saturating_sub(1).max(1) } else { n + i }; (0..len).map(|j| if zero_at == Some(i) { SF::zero() } else { sym(&format!("f{}_{}", i, j)) }).collect() }).collect();
     let comms = ck.batch_commit(&polys);
     // time vs space on the last (longest) polynomial
     let p0 = polys[k - 1].clone();
